@@ -19,6 +19,7 @@ EXPLANATION = (
     "extracted definitions wraps every statement-list field of every compound statement in a Suite.  The oracle is "
     "the running interpreter's grammar plus the binding/conditional/loop/generator tables.  The set algebra on the "
     "summary, similar-code replacement and placement arithmetic are not decided."
+    ' R03.14: after every filing of an in-region write (conditional or not) the loop-carried check is passed.'
 )
 ASSUMPTIONS = [
     "the break/continue finder lacking AsyncFor and the missing scope cuts of the return counter only cause over-refusal, which the property allows: recorded as exceptions, not armed (R03.5 arms only the under-refusal direction: else clauses)",
